@@ -225,8 +225,15 @@ func c09run(c *mon.Ctx, pool *c09pool, cs c09case, rng *rand.Rand) {
 		}
 		snapP := append([]bandersnatch.PointAffine(nil), pts...)
 		cfg := bandersnatch.MultiExpConfig{NbTasks: cs.tasks, ScalarsMont: cs.mont}
+		if cs.n == 0 && cs.variant%2 == 1 {
+			pts, ls = nil, nil // nil instead of empty slices
+		}
 		if cs.entry == 0 {
 			var res bandersnatch.PointProj
+			if cs.variant%3 != 0 {
+				// the receiver holds an unrelated earlier result: the sum must not depend on it
+				res.FromAffine(&pool.aff[rng.Intn(len(pool.aff))])
+			}
 			_, err = bandersnatch.MultiExp(&res, pts, ls, cfg)
 			e := banderwagon.VerifFromCoords(res.X, res.Y, res.Z)
 			got, ok = ElemToRef(&e)
@@ -256,8 +263,14 @@ func c09run(c *mon.Ctx, pool *c09pool, cs c09case, rng *rand.Rand) {
 		}
 		snapP := append([]banderwagon.Element(nil), pts...)
 		var res banderwagon.Element
+		if cs.n == 0 && cs.variant%2 == 1 {
+			pts, ls = nil, nil
+		}
 		if cs.entry == 1 {
 			res.SetIdentity()
+			if cs.variant%3 != 0 {
+				res = pool.el[rng.Intn(len(pool.el))] // an accumulator re-used across calls
+			}
 			_, err = res.MultiExp(pts, ls, banderwagon.MultiExpConfig{NbTasks: cs.tasks, ScalarsMont: cs.mont})
 		} else {
 			res, err = ipa.MultiScalar(pts, ls)
